@@ -433,6 +433,17 @@ def rule_tempoform(ctx):
             return den.op == "iter" and den.a[0].op == "param" and role_of(den.a[0].a[0]) == "R" and num.op == "call" and call_name(num) == "np.abs" and num.a[1][0].op == "bin" and num.a[1][0].a[0] == "-" and num.a[1][0].a[1] is den and num.a[1][0].a[2].op == "param" and role_of(num.a[1][0].a[2].a[0]) == "E"
         return False
 
+    _plain_hit_cmp = hit_cmp
+
+    def hit_cmp(c):  # noqa: F811
+        # `ref_t > 0 and <cmp>`: the conditional written as a conjunction (False for a zero reference tempo)
+        if c.op == "bool" and c.a[0] == "and" and len(c.a) == 3:
+            ops = list(c.a[1:])
+            pos = [z for z in ops if z.op == "cmp" and z.a[0] == "<" and tm.is_const(z.a[1], 0) and z.a[2].op == "iter" and z.a[2].a[0].op == "param" and role_of(z.a[2].a[0].a[0]) == "R"]
+            rest = [z for z in ops if z not in pos]
+            return len(pos) == 1 and len(rest) == 1 and _plain_hit_cmp(rest[0])
+        return _plain_hit_cmp(c)
+
     if hits is not None:
         # loop form: hits[i] = <cmp> for i, ref_t in enumerate(reference_tempi); comprehension form: one element per ref_t
         for x in tm.walk(hits):
@@ -885,3 +896,6 @@ RULES = [
     ("C04.CONTFRESH", 2, rule_contfresh),
     ("C04.MELODYPIPE", 1, rule_melodypipe),
 ]
+
+from . import common as _common_purity
+RULES = RULES + _common_purity.purity_rules("C04")
